@@ -64,8 +64,21 @@ FMT_ENV = dict(
 )
 
 
+def _count_fact(row, args):
+    """A COUNT(*) query returns a number that is a function of the statement text and its arguments; nothing
+    relates it to the number of attached failed steps unless the statement is the one Workflow.steps issues."""
+    c = cur()
+    ev = [e for e in c.trace if e.kind == "sql"]
+    import hashlib
+
+    name = "wf.count." + hashlib.sha1(ev[-1].norm.encode()).hexdigest()[:10]
+    n = c.decls.const(name, INT)
+    return wrap_bool(tm.And(tm.Eq(I(row[0]), n), tm.Ge(n, tm.mk_int(0))))
+
+
 def _wf(args):
-    return ty.ObjOf(Workflow, dict(db=ty.Make(lambda n: DbStub(n)), targets=ty.SetOf(PathStr),
+    return ty.ObjOf(Workflow, dict(db=ty.Make(lambda n: DbStub(n, [("SELECT COUNT", ty.TupleOf(ty.Int), _count_fact)])),
+                                   targets=ty.SetOf(PathStr),
                                    target_dirs=ty.SetOf(PathStr)), name="Workflow").fresh("workflow")
 
 
